@@ -162,7 +162,7 @@ where
 
         let (status, headers) = Header::try_from(fields)
             .map_err(|_e| {
-                self.inner.stream.stop_sending(Code::H3_REQUEST_CANCELLED);
+                self.inner.stream.stop_sending(Code::H3_MESSAGE_ERROR);
                 StreamError::StreamError {
                     code: Code::H3_MESSAGE_ERROR,
                     reason: "Received malformed header".to_string(),
@@ -170,7 +170,7 @@ where
             })?
             .into_response_parts()
             .map_err(|_e| {
-                self.inner.stream.stop_sending(Code::H3_REQUEST_CANCELLED);
+                self.inner.stream.stop_sending(Code::H3_MESSAGE_ERROR);
                 StreamError::StreamError {
                     code: Code::H3_MESSAGE_ERROR,
                     reason: "Received malformed header".to_string(),
